@@ -21,6 +21,17 @@ func UnmarshalJSON(src io.Reader) (Canonicalable, error) {
 	if err != nil {
 		return nil, err
 	}
+	if res == nil {
+		return nil, errors.New("unexpected end of array or object")
+	}
+
+	// Only a single complete JSON value is acceptable
+	if _, err := dec.Token(); err != io.EOF {
+		if err == nil {
+			err = errors.New("unexpected data after top-level value")
+		}
+		return nil, err
+	}
 
 	return res, nil
 }
@@ -48,7 +59,8 @@ func CanonicalJSON(src io.Reader) ([]byte, error) {
 func handleNextToken(dec *json.Decoder) (Canonicalable, error) {
 	t, err := dec.Token()
 	if err == io.EOF {
-		return nil, nil
+		// incomplete documents must be rejected
+		return nil, io.ErrUnexpectedEOF
 	}
 	if err != nil {
 		return nil, err
